@@ -314,3 +314,14 @@ def mm_process_swaps():
                && swaps_done(state.pools@, state.coins@.coins, state.height, reqs, ISet::new(|k: PoolKey| mentions(reqs, k)), res.pools@, res.coins@.coins)""", "C15", "C01", "C16",
           note="every pool named by a genuine swap request is settled exactly once, at one price for both directions; nothing else moves")]
     return d
+
+def mm_deposits_single():
+    return dict(
+        requires=[C("reqs", "deposits_pre(old(deposits)@, *pool)"),
+                  C("pool", "old(state).pools@.contains_key(*pool) && old(state).pools@[*pool].liqs != 0 ==> old(state).pools@[*pool].lefts > 0 && old(state).pools@[*pool].rights > 0"),
+                  C("inv", "old(state).coins.wf() && (spec_tip906(*old(state)) ==> counts_ok(old(state).coins@)) && origin_ok(old(state).coins@.coins)"),
+                  C("fits", "true_sum(dep_weights(old(deposits)@), old(deposits)@.len() as int) <= u128::MAX", note="C09 envelope: the deposits' weights isqrt(l)*isqrt(r) add up to less than 2^128 (each is below 2^120)")],
+        ensures=[C("result", """exists|minted: int| #[trigger] deposits_result(old(state).pools@, old(state).coins@.coins, old(deposits)@, *pool, old(state).height,
+                        deposit_legacy(old(state).network, old(state).height), final(state).pools@, final(state).coins@.coins, minted)""", "C15", "C16", "C01"),
+                 C("frame", "pool_phase_frame(*old(state), *final(state)) && final(state).fee_pool == old(state).fee_pool", "C15", "C17"),
+                 C("inv", "final(state).coins.wf() && (spec_tip906(*old(state)) ==> counts_ok(final(state).coins@)) && origin_ok(final(state).coins@.coins) && (!spec_tip906(*old(state)) ==> final(state).coins@.counts == old(state).coins@.counts)", "C20")])
